@@ -74,6 +74,27 @@ def level2_groups(natoms=6):
                     yield ("q", ("grp", ("q", x, q1)), q2)
 
 
+def nested_groups():
+    """redundant nesting of groups: ((x)), (((x))), ((x|y)), z(((x)))q"""
+    atoms = [("atom", a) for a in ATOMS_SMALL]
+    for x in atoms:
+        for depth in (2, 3, 4):
+            n = x
+            for _ in range(depth):
+                n = ("grp", n)
+            for q in ("", "*", "+", "?", "{2}", "{0,1}"):
+                yield ("q", n, q) if q else n
+                yield ("cat", ("atom", "b"), ("q", n, q) if q else n)
+        for y in atoms[:3]:
+            for depth in (2, 3):
+                n = ("alt", x, y)
+                for _ in range(depth):
+                    n = ("grp", n)
+                yield n
+                yield ("q", n, "+")
+                yield ("cat", n, ("atom", "0"))
+
+
 def level3():
     """depth 3 (pruned): (X q1 Y) q2 Z and X|(Y Z)q with small atoms and small quantifiers"""
     atoms = [("atom", a) for a in ATOMS_SMALL[:4]]
